@@ -402,6 +402,96 @@ fn arg_order(src: &mut Src, st: &mut Stats, _env: &Env) -> CaseResult {
     Ok(())
 }
 
+/// A custom higher-order function: `apply(&expr, value)` evaluates the
+/// reference it received (unevaluated) on `value`.  The only way a custom
+/// function can do that is `Expression::new(label, ast, ctx.runtime)`, and it
+/// does not have the source text of the reference, so the label is arbitrary.
+/// The outcome must be what evaluating `expr` on `value` directly gives: the
+/// same value, or a failure of the same kind (never a panic).
+fn apply_expref(src: &mut Src, st: &mut Stats, _env: &Env) -> CaseResult {
+    use crate::gen_typed::{gen_typed, schema_doc};
+    let doc = schema_doc(src);
+    let dt = doc.to_json();
+    let inner = match src.below(6) {
+        0 => src.pick(&["nope(@)", "abs('x')", "length(@, @)", "nums[::0]", "sort_by(objs, &to_array(n))", "objs[*].nope(@)", "map(&abs(s), objs)", "[n, nope2(s)]", "\"\\u00e9\\u00e9\\u00e9\\u00e9\".abs(@)"]).to_string(),
+        _ => {
+            let d = 1 + src.below(3);
+            let t = gen_typed(src, d);
+            match crate::props::c01::spell_tree(&t, src, st) {
+                Some(x) => x.0,
+                None => {
+                    st.discard();
+                    return Ok(());
+                }
+            }
+        }
+    };
+    let label: String = src.pick(&["", "x", "<expref>", "a\u{f1}adir", "\u{65e5}\u{672c}\u{8a9e}\u{65e5}\u{672c}\u{8a9e}", "\n\n"]).to_string();
+    let label = if src.chance(60) { inner.clone() } else { label };
+    let seen: Arc<Mutex<Vec<crate::refast::Shape>>> = Arc::new(Mutex::new(vec![]));
+    let mut rt = Runtime::new();
+    rt.register_builtin_functions();
+    let (lb, sn) = (label.clone(), seen.clone());
+    rt.register_function(
+        "apply",
+        Box::new(move |args: &[Rcvar], ctx: &mut Context<'_>| match args.first().map(|a| &**a) {
+            Some(Variable::Expref(ast)) => {
+                sn.lock().unwrap().push(strip(ast));
+                let e = jmespath::Expression::new(lb.as_str(), ast.clone(), ctx.runtime);
+                e.search(args.get(1).cloned().unwrap_or_else(|| Rcvar::new(Variable::Null)))
+            }
+            _ => Ok(Rcvar::new(Variable::Null)),
+        }),
+    );
+    let outer = if src.flip() { format!("apply(&{}, @)", inner) } else { format!("apply(&({}), @)", inner) };
+    st.eval();
+    let case = json!({"expression": outer, "inner": inner, "label": label, "document": dt});
+    let direct = crate::imp::search_text(&inner, &dt);
+    let compiled = match rt.compile(&outer) {
+        Ok(c) => c,
+        Err(_) => {
+            // the inner text is not a sentence (a mutated spelling): nothing to apply
+            st.class("apply:inner-not-a-sentence");
+            return Ok(());
+        }
+    };
+    let got = catch(std::panic::AssertUnwindSafe(|| compiled.search(Variable::from_json(&dt).unwrap()))).map_err(|p| Failure::new("apply-expref", "panic", format!("search panicked: {}", p), case.clone()))?;
+    // the reference arrives unevaluated, as the tree of its source text
+    let asts = seen.lock().unwrap().clone();
+    if let (Some(a), Ok(p)) = (asts.first(), jmespath::parse(&inner)) {
+        if !normal_eq(a, &strip(&p)) {
+            return Err(Failure::new("apply-expref", "expression-reference-altered", format!("the function received {:?}", a), case));
+        }
+    }
+    match (&direct, &got) {
+        (crate::imp::ImpOut::Ok(w), Ok(g)) => {
+            if !var_to_j(g).deep_eq(w) {
+                return Err(Failure::new("apply-expref", "applied-reference-differs", format!("apply gives {} but the expression itself gives {}", g, w.to_json()), case));
+            }
+            st.class("apply:value");
+        }
+        (crate::imp::ImpOut::SearchErr(e), Err(g)) => {
+            let c = classify(g);
+            if c.class != e.class {
+                return Err(Failure::new("apply-expref", "applied-reference-differs", format!("apply fails with {} but the expression itself fails with {}", c.detail, e.detail), case));
+            }
+            st.class("apply:error");
+            if st.nontrivial(&format!("{}\u{0}{}", outer, label)) {
+                st.sample(|| json!({"expression": outer, "label": label, "error": c.class}));
+            }
+        }
+        (d, g) => {
+            return Err(Failure::new(
+                "apply-expref",
+                "applied-reference-differs",
+                format!("apply gives {:?} but the expression itself gives {}", g.as_ref().map(|v| v.to_string()).map_err(|e| classify(e).detail), d.brief()),
+                case,
+            ));
+        }
+    }
+    Ok(())
+}
+
 pub fn property() -> Property {
     Property {
         id: "C15",
@@ -413,6 +503,7 @@ pub fn property() -> Property {
         minimise: None,
         subs: vec![
             Sub::Bytes(BytesSub { name: "arg-order", f: arg_order, max_len: 200, quick: Budget { threads: 4, cases: 2000 }, thorough: Budget { threads: 16, cases: 60_000 }, keep_unreproducible: false }),
+            Sub::Bytes(BytesSub { name: "apply-expref", f: apply_expref, max_len: 600, quick: Budget { threads: 4, cases: 2000 }, thorough: Budget { threads: 16, cases: 60_000 }, keep_unreproducible: false }),
             Sub::Bytes(BytesSub { name: "history", f: history, max_len: 600, quick: Budget { threads: 8, cases: 1500 }, thorough: Budget { threads: 16, cases: 80_000 }, keep_unreproducible: false }),
         ],
     }
